@@ -32,14 +32,85 @@ mod harnesses {
     // helpers
     // ------------------------------------------------------------------------------------
 
-    /// An arbitrary valid UTF-8 string of at most `N` bytes living in `buf`.
-    /// Validity is decided by the real `std::str::from_utf8` (nothing hand-written is trusted).
+    fn cont(b: u8) -> bool {
+        (b & 0xC0) == 0x80
+    }
+
+    /// Hand-written UTF-8 well-formedness check (Unicode 15 table 3-7).  It is NOT trusted: the
+    /// harnesses `utf8_model_agrees_n*` prove `utf8_valid(b) == std::str::from_utf8(b).is_ok()`
+    /// for every byte string up to the length used by the other harnesses.  It exists only
+    /// because assuming `from_utf8(..).is_ok()` directly costs CBMC ~100 s for 8 bytes (word-wise
+    /// ASCII fast path) against ~3 s for this loop.
+    fn utf8_valid(b: &[u8]) -> bool {
+        let n = b.len();
+        let mut i = 0;
+        while i < n {
+            let b0 = b[i];
+            if b0 < 0x80 {
+                i += 1;
+            } else if b0 >= 0xC2 && b0 <= 0xDF {
+                if n - i < 2 || !cont(b[i + 1]) {
+                    return false;
+                }
+                i += 2;
+            } else if b0 >= 0xE0 && b0 <= 0xEF {
+                if n - i < 3 {
+                    return false;
+                }
+                let b1 = b[i + 1];
+                let ok1 = match b0 {
+                    0xE0 => b1 >= 0xA0 && b1 <= 0xBF,
+                    0xED => b1 >= 0x80 && b1 <= 0x9F,
+                    _ => cont(b1),
+                };
+                if !ok1 || !cont(b[i + 2]) {
+                    return false;
+                }
+                i += 3;
+            } else if b0 >= 0xF0 && b0 <= 0xF4 {
+                if n - i < 4 {
+                    return false;
+                }
+                let b1 = b[i + 1];
+                let ok1 = match b0 {
+                    0xF0 => b1 >= 0x90 && b1 <= 0xBF,
+                    0xF4 => b1 >= 0x80 && b1 <= 0x8F,
+                    _ => cont(b1),
+                };
+                if !ok1 || !cont(b[i + 2]) || !cont(b[i + 3]) {
+                    return false;
+                }
+                i += 4;
+            } else {
+                return false;
+            }
+        }
+        true
+    }
+
+    /// Support lemma: the model agrees with the real `std::str::from_utf8` on every byte string
+    /// of at most `N` bytes.
+    fn check_utf8_model<const N: usize>() {
+        let buf: [u8; N] = kani::any();
+        let len: usize = kani::any();
+        kani::assume(len <= N);
+        assert!(utf8_valid(&buf[..len]) == std::str::from_utf8(&buf[..len]).is_ok());
+    }
+
+    #[kani::proof]
+    #[kani::unwind(10)]
+    fn utf8_model_agrees_n8() {
+        check_utf8_model::<8>();
+    }
+
+    /// An arbitrary valid UTF-8 string of at most `N` bytes living in `buf`
+    /// (all of them: see `utf8_model_agrees_n*`).
     fn sym_str<const N: usize>(buf: &[u8; N]) -> &str {
         let len: usize = kani::any();
         kani::assume(len <= N);
-        let r = std::str::from_utf8(&buf[..len]);
-        kani::assume(r.is_ok());
-        r.unwrap()
+        kani::assume(utf8_valid(&buf[..len]));
+        // SAFETY: utf8_valid == from_utf8(..).is_ok(), proved by utf8_model_agrees_n* for len <= N
+        unsafe { std::str::from_utf8_unchecked(&buf[..len]) }
     }
 
     /// An arbitrary string of at most `N` symbols over {'a', '\n', ' ', U+2003 (EM SPACE)}.
@@ -139,12 +210,16 @@ mod harnesses {
         assert!(FixtureScope::default() <= a);
     }
 
-    /// `parse(as_str(s)) == Some(s)` for the five scopes.
+    /// `parse(as_str(s)) == Some(s)` for the five scopes (five concrete calls: CBMC constant-
+    /// propagates `to_lowercase`; a symbolic scope did not finish in 10 minutes).
     #[kani::proof]
-    #[kani::unwind(10)]
+    #[kani::unwind(20)]
     fn scope_parse_roundtrip() {
-        let s = any_scope();
-        assert!(FixtureScope::parse(s.as_str()) == Some(s));
+        assert!(FixtureScope::parse(FixtureScope::Function.as_str()) == Some(FixtureScope::Function));
+        assert!(FixtureScope::parse(FixtureScope::Class.as_str()) == Some(FixtureScope::Class));
+        assert!(FixtureScope::parse(FixtureScope::Module.as_str()) == Some(FixtureScope::Module));
+        assert!(FixtureScope::parse(FixtureScope::Package.as_str()) == Some(FixtureScope::Package));
+        assert!(FixtureScope::parse(FixtureScope::Session.as_str()) == Some(FixtureScope::Session));
     }
 
     // ------------------------------------------------------------------------------------
